@@ -42,75 +42,110 @@ def castable(t, w):
 
 
 # ------------------------------------------------------------ definitions
+# every definition kind owns a line prefix, so a line matches at most one
+# definition of a scenario and a result is attributed to its definition by
+# the LINE it names - never by result.tag (which is one of the things under
+# test)
+KINDS = {
+    'two': (r'A (\S+) (\S+)', None),
+    'opt': (r'B (\S+)(?: opt=(\S+))? end(?: (\S+))?', None),
+    'whole': (r'W .*', None),
+    'named': (r'C (\S+) (\S+)', [('first', None), ('second', None)]),
+    'typed': (r'N (\d+) (\d+(?:\.\d+)?) (\S+)',
+              [('num', int), ('ratio', float), ('word', str)]),
+    'typedopt': (r'E (\S+)(?: opt=(\d+))? end',
+                 [('key', None), ('n', int), ('spare', str)]),
+    'nostore': (r'D (\S+) (\S+)', None),
+    # values that are FALSY after conversion: int 0, float 0.0, '' from
+    # (\w*) / (\S*), plus an optional typed group
+    'falsy': (r'F (\d+) (\d+\.\d+) q(\w*) r(\S*)(?: o=(\d+))?',
+              [('n', int), ('x', float), ('w', str), ('s', None),
+               ('o', int)]),
+    'empty': (r'G (\w*)\|(\S*)', None),
+    # leading optional group: when it is unmatched on the first matching
+    # line the TAG is the first thing the store allocates (index 0)
+    'leadopt': (r'H(?: (\d+))? k=(\S+)', None),
+}
+
+
 def make_defs(rng, kinds):
-    """ returns list of dicts {tag, pattern, fields(list of (name, type)) or
-    None, store, sdef-kwargs} """
+    """ returns list of dicts {tag, pattern, fields, store, sdef, re} """
     from searchkit.search import ResultFieldInfo
     from searchkit import SearchDef
     specs = []
     for n, kind in enumerate(kinds):
         tag = rng.choice(['tagA', 'tagB', 'tagC', f"t{n}", 'alpha', '7'])
-        tag = f"{tag}" if all(s['tag'] != tag for s in specs) else f"{tag}_{n}"
-        spec = {'tag': tag, 'fields': None, 'store': True, 'kind': kind}
-        if kind == 'two':
-            spec['pattern'] = r'A (\S+) (\S+)'
-        elif kind == 'opt':
-            spec['pattern'] = r'B (\S+)(?: opt=(\S+))? end(?: (\S+))?'
-        elif kind == 'whole':
-            spec['pattern'] = r'W .*'
-        elif kind == 'named':
-            spec['pattern'] = r'A (\S+) (\S+)'
-            spec['fields'] = [('first', None), ('second', None)]
-            spec['as_list'] = rng.random() < 0.5
-        elif kind == 'typed':
-            spec['pattern'] = r'N (\d+) (\d+(?:\.\d+)?) (\S+)'
-            spec['fields'] = [('num', int), ('ratio', float), ('word', str)]
-        elif kind == 'typedopt':
-            spec['pattern'] = r'B (\S+)(?: opt=(\d+))? end'
-            spec['fields'] = [('key', None), ('n', int), ('spare', str)]
-        elif kind == 'nostore':
-            spec['pattern'] = r'A (\S+) (\S+)'
-            spec['store'] = False
+        if any(sp['tag'] == tag for sp in specs):
+            tag = f"{tag}_{n}"
+        pattern, fields = KINDS[kind]
+        spec = {'tag': tag, 'fields': fields, 'store': kind != 'nostore',
+                'kind': kind, 'pattern': pattern}
         fi = None
-        if spec['fields']:
-            if spec.get('as_list'):
-                fi = ResultFieldInfo([f for f, _ in spec['fields']])
+        if fields:
+            if kind == 'named' and rng.random() < 0.5:
+                fi = ResultFieldInfo([f for f, _ in fields])
             else:
-                fi = ResultFieldInfo(dict(spec['fields']))
-        spec['sdef'] = SearchDef(spec['pattern'], tag=tag, field_info=fi,
+                fi = ResultFieldInfo(dict(fields))
+        spec['sdef'] = SearchDef(pattern, tag=tag, field_info=fi,
                                  store_result_contents=spec['store'])
-        spec['re'] = re.compile(spec['pattern'])
+        spec['re'] = re.compile(pattern)
         specs.append(spec)
     return specs
 
 
-def gen_lines(rng, n, distinct, extra_words=()):
-    """ n lines; `distinct` controls how many different tokens appear """
+def gen_lines(rng, n, distinct, kinds, extra_words=()):
+    """ n lines for the given definition kinds; `distinct` controls how many
+    different tokens appear """
     words = WORDS + list(extra_words)
 
     def tok(i):
         if distinct and rng.random() < 0.8:
             return f"u{rng.randrange(distinct)}" if distinct < n else f"u{i}"
         return rng.choice(words)
+
+    def line(kind, i):
+        if kind in ('two', 'named', 'nostore'):
+            return f"{ {'two': 'A', 'named': 'C', 'nostore': 'D'}[kind]} " \
+                   f"{tok(i)} {tok(i + n)}"
+        if kind in ('opt', 'typedopt'):
+            pre = 'B' if kind == 'opt' else 'E'
+            if rng.random() < 0.5:
+                return f"{pre} {tok(i)} end"
+            return (f"{pre} {tok(i)} opt="
+                    f"{rng.choice(['5', '05', '0', '00', tok(i)])} end"
+                    + rng.choice(['', ' tail']))
+        if kind == 'typed':
+            return (f"N {rng.choice([0, 0, 1, 1, 7, 42, i])} "
+                    f"{rng.choice(['0', '0.0', '1', '1.0', '1.50', str(i)])} "
+                    f"{tok(i)}")
+        if kind == 'whole':
+            return f"W {tok(i)} {rng.choice(words)}"
+        if kind == 'falsy':
+            return (f"F {rng.choice([0, 0, 0, 7, i])} "
+                    f"{rng.choice(['0.0', '0.00', '1.5'])} "
+                    f"q{rng.choice(['', '', 'w', 'alpha'])} "
+                    f"r{rng.choice(['', '', tok(i)])}"
+                    + rng.choice(['', ' o=0', ' o=00', ' o=3']))
+        if kind == 'empty':
+            return (f"G {rng.choice(['', '', 'a', 'alpha'])}|"
+                    f"{rng.choice(['', '', tok(i)])}")
+        if kind == 'leadopt':
+            return (f"H{rng.choice(['', '', ' 0', ' 12'])} "
+                    f"k={tok(i)}")
+        raise ValueError(kind)
     out = []
     for i in range(n):
-        k = rng.randrange(8)
-        if k <= 2:
-            out.append(f"A {tok(i)} {tok(i + n)}")
-        elif k == 3:
-            out.append(f"B {tok(i)} opt={rng.choice(['5', '05', tok(i)])} end"
-                       + rng.choice(['', ' tail']))
-        elif k == 4:
-            out.append(f"B {tok(i)} end")
-        elif k == 5:
-            out.append(f"N {rng.choice([1, 1, 7, 42, i])} "
-                       f"{rng.choice(['1', '1.0', '1.50', '7', str(i)])} "
-                       f"{tok(i)}")
-        elif k == 6:
-            out.append(f"W {tok(i)} {rng.choice(words)}")
+        if rng.random() < 0.12:
+            out.append(rng.choice(['noise', '', 'A onlyone', 'H k=']))
         else:
-            out.append(rng.choice(['noise', '', 'A onlyone']))
+            out.append(line(rng.choice(kinds), i))
     return out
+
+
+def spec_for_line(specs, line):
+    """ the definition (of a scenario) whose pattern matches the line """
+    hit = [sp for sp in specs if sp['re'].match(line)]
+    return hit[0] if len(hit) == 1 else None
 
 
 def oracle_capture(spec, line):
@@ -190,11 +225,9 @@ def judge_result(spec, res, line, seq_id=None):
         got = safe(lambda name=name: getattr(res, name))
         if not same(got, want):
             bad.append(f"attribute {name} = {got!r}, captured {want!r}")
-    try:
-        getattr(res, 'no_such_field')
-        bad.append("unknown attribute did not raise AttributeError")
-    except AttributeError:
-        pass
+    got = safe(lambda: getattr(res, 'no_such_field'))
+    if not (isinstance(got, Raised) and isinstance(got.exc, AttributeError)):
+        bad.append(f"unknown attribute gives {got!r}, not AttributeError")
     checks += 2
     got = safe(lambda: res.tag)
     if got != spec['tag']:
@@ -206,7 +239,8 @@ def judge_result(spec, res, line, seq_id=None):
 
 
 # ------------------------------------------------------------ scenarios
-def scenario(chk, d, name, nfiles, kinds, nlines, distinct, seq=False):
+def scenario(chk, d, name, nfiles, kinds, nlines, distinct, seq=False,
+             first_line=None):
     """ build files + searcher, run, return observations """
     from searchkit import FileSearcher, SequenceSearchDef, SearchDef
     rng = chk.rng
@@ -229,7 +263,9 @@ def scenario(chk, d, name, nfiles, kinds, nlines, distinct, seq=False):
     paths, contents = [], {}
     for i in range(nfiles):
         p = os.path.join(d, f"{name}_{i}.log")
-        lines = gen_lines(rng, nlines, distinct, extra)
+        lines = gen_lines(rng, nlines, distinct, kinds, extra)
+        if first_line is not None:
+            lines.insert(0, first_line)
         if seqdef is not None:
             for k in range(0, len(lines), 7):
                 lines[k:k] = [f"START {rng.choice(extra)}",
@@ -253,11 +289,17 @@ def scenario(chk, d, name, nfiles, kinds, nlines, distinct, seq=False):
     finally:
         signal.alarm(0)
         signal.signal(signal.SIGALRM, old)
-    by_tag = {sp['tag']: sp for sp in specs}
-    by_tag.update(seq_specs)
     return {'name': name, 'paths': paths, 'contents': contents, 'res': res,
-            'specs': specs, 'by_tag': by_tag, 'seqdef': seqdef,
-            'parallel': nfiles > 1}
+            'specs': specs, 'all_specs': specs + list(seq_specs.values()),
+            'seqdef': seqdef, 'parallel': nfiles > 1}
+
+
+def line_of(sc, p, r):
+    """ the line a result names ('' beyond the end of the file) """
+    lines = sc['contents'][p]
+    ln = r.linenumber
+    return lines[ln - 1] if isinstance(ln, int) and 1 <= ln <= len(lines) \
+        else ''
 
 
 def judge_scenario(chk, sc):
@@ -269,25 +311,26 @@ def judge_scenario(chk, sc):
         counts = {}
         for r in results:
             n_results += 1
-            spec = sc['by_tag'].get(r.tag)
+            line = line_of(sc, p, r)
+            spec = spec_for_line(sc['all_specs'], line)
             if spec is None:
-                bad.append(f"{p}: result with unknown tag {r.tag!r}")
+                bad.append(f"{os.path.basename(p)}:{r.linenumber} result for "
+                           f"a line no definition matches: {line!r}")
                 continue
-            counts[r.tag] = counts.get(r.tag, 0) + 1
-            ln = r.linenumber
-            line = lines[ln - 1] if 1 <= ln <= len(lines) else ''
+            counts[spec['pattern']] = counts.get(spec['pattern'], 0) + 1
             seq_id = sc['seqdef'].id if spec['kind'] == 'seq' else None
             b, c = judge_result(spec, r, line, seq_id)
             n_checks += c
             for x in b[:2]:
-                bad.append(f"{os.path.basename(p)}:{ln} [{spec['kind']} "
-                           f"{spec['pattern']!r} line {line!r}] {x}")
+                bad.append(f"{os.path.basename(p)}:{r.linenumber} "
+                           f"[{spec['kind']} {spec['pattern']!r} line "
+                           f"{line!r}] {x}")
         # non-vacuity: simple searches return one result per matching line
         for spec in sc['specs']:
             want = sum(1 for ln in lines if spec['re'].match(ln))
-            if counts.get(spec['tag'], 0) != want:
-                bad.append(f"{p}: {counts.get(spec['tag'], 0)} results tagged "
-                           f"{spec['tag']!r}, {want} lines match")
+            if counts.get(spec['pattern'], 0) != want:
+                bad.append(f"{p}: {counts.get(spec['pattern'], 0)} results "
+                           f"for {spec['pattern']!r}, {want} lines match")
     return bad, n_checks, n_results
 
 
@@ -362,14 +405,13 @@ def model_case(sc, cl):
     files, wants = [], []
     casts = {}
     for p in sc['paths']:
-        lines = sc['contents'][p]
         results = sc['res'].find_by_path(p)
         rs, ws = [], []
         used = []
         for r in results:
-            spec = sc['by_tag'][r.tag]
-            line = lines[r.linenumber - 1]
-            cap = oracle_capture(spec, line)
+            line = line_of(sc, p, r)
+            spec = spec_for_line(sc['all_specs'], line)
+            cap = oracle_capture(spec, line) if spec else None
             if cap is None:
                 return None
             fi = "None"
@@ -463,104 +505,137 @@ def run(chk):
     chk.coverage['rule'] = (
         "scenario = generated log files x 1-4 search definitions (unnamed, "
         "optional-group, whole-line, named, typed, typed-optional, "
-        "no-contents, sequence) run through the real FileSearcher; every "
+        "no-contents, falsy-after-cast, empty-string groups, leading "
+        "optional group, sequence) run through the real FileSearcher; a "
+        "result is attributed to its definition by the line it names; every "
         "accessor of every returned result is compared with the plain-`re` "
         "capture of the line it names; an evaluation = one result; "
         "non-trivial = a result with at least one stored value; model "
         "comparison in Coq for simple-search scenarios <= 400 results/file")
     d = tempfile.mkdtemp(prefix='c05_', dir=chk.work)
-    all_kinds = ['two', 'opt', 'whole', 'named', 'typed', 'typedopt',
-                 'nostore']
+    all_kinds = list(KINDS)
     plans = []
+
+    def plan(nfiles, kinds, nlines, distinct, seq=False, first_line=None):
+        plans.append({'nfiles': nfiles, 'kinds': kinds, 'nlines': nlines,
+                      'distinct': distinct, 'seq': seq,
+                      'first_line': first_line})
     reps = 1 if chk.quick else 5
     for _ in range(reps):
         # small, heavy duplication: single and multi file, every def kind
         for nfiles in (1, 1, 3, 5):
             for _k in range(2 if chk.quick else 4):
-                kinds = rng.sample(all_kinds, rng.choice([1, 2, 3, 4]))
-                plans.append((nfiles, kinds, rng.choice([5, 40, 120]),
-                              rng.choice([0, 3, 30]), False))
+                plan(nfiles, rng.sample(all_kinds, rng.choice([1, 2, 3, 4])),
+                     rng.choice([5, 40, 120]), rng.choice([0, 3, 30]))
+        # values that are falsy after conversion (0, 0.0, ''), in-process
+        # and in worker processes
+        plan(1, ['falsy', 'empty'], 60, 3)
+        plan(3, ['falsy', 'empty', 'typedopt'], 60, 3)
+        plan(4, ['falsy'], 30, 0)
+        plan(2, ['empty', 'typed'], 50, 0)
+        # the tag is the first thing the store allocates (store index 0):
+        # the first result stores no value
+        plan(1, ['nostore'], 20, 3)
+        plan(3, ['nostore'], 20, 3)
+        plan(1, ['leadopt', 'two'], 40, 3, first_line='H k=first')
+        plan(3, ['leadopt', 'two'], 40, 3, first_line='H k=first')
         # values equal to tags / sequence ids, sequences
-        plans.append((1, ['two', 'typed'], 80, 5, True))
-        plans.append((3, ['opt', 'named'], 80, 5, True))
+        plan(1, ['two', 'typed'], 80, 5, seq=True)
+        plan(3, ['opt', 'named'], 80, 5, seq=True)
         # roll-over: > 1000 and > 2500 distinct values per file
-        plans.append((1, ['two'], 800, 10 ** 9, False))
-        plans.append((1, ['two', 'typed', 'opt'], 3600, 10 ** 9, False))
-        plans.append((3, ['two', 'opt'], 1500, 10 ** 9, False))
-        plans.append((4, ['named', 'two'], 4600, 10 ** 9, False))
+        plan(1, ['two'], 800, 10 ** 9)
+        plan(1, ['two', 'typed', 'opt'], 3000, 10 ** 9)
+        plan(3, ['two', 'opt'], 1500, 10 ** 9)
+        plan(4, ['named', 'two'], 2400, 10 ** 9)
     coq_cases, wants = [], []
-    type_differs = 0
+    type_differs = [0]
+
+    def one(n, pl):
+        nfiles, kinds, nlines = pl['nfiles'], pl['kinds'], pl['nlines']
+        try:
+            sc = scenario(chk, d, f"s{n}", nfiles, kinds, nlines,
+                          pl['distinct'], pl['seq'], pl['first_line'])
+        except Exception as exc:  # pylint: disable=broad-except
+            chk.violation(
+                f"c05-run-raised {type(exc).__name__}",
+                {'exception': repr(exc)[:400], 'plan': pl})
+            return
+        bad, n_checks, n_results = judge_scenario(chk, sc)
+        chk.coverage['evaluations'] += n_results
+        chk.coverage['traces_validated_against_impl'] += n_checks
+        chk.dist('scenarios-parallel' if sc['parallel']
+                 else 'scenarios-in-process')
+        for k in kinds:
+            chk.dist(f"def-{k}")
+        if pl['seq']:
+            chk.dist('def-sequence')
+        for p in sc['paths']:
+            per_file = set()
+            results = sc['res'].find_by_path(p)
+            if results and safe(lambda: results[0].metadata[0]) == 0:
+                chk.dist('tag-stored-at-index-0-' +
+                         ('parallel' if sc['parallel'] else 'in-process'))
+            for r in results:
+                if any(part[1] is not None for part in r.data):
+                    chk.coverage['distinct_nontrivial'] += 1
+                line = line_of(sc, p, r)
+                spec = spec_for_line(sc['all_specs'], line)
+                cap = oracle_capture(spec, line) if spec else None
+                for part in r.data:
+                    if part[1] is None:
+                        continue
+                    per_file.add(part[1])
+                    v = safe(lambda r=r, part=part: r.get(part[0]))
+                    if cap and part[0] in cap['by_idx']:
+                        want = cap['by_idx'][part[0]]
+                        if not isinstance(v, Raised) and \
+                                type(v) is not type(want):
+                            type_differs[0] += 1      # ==-equal, other type
+                        if want is not None and not want:
+                            chk.dist('falsy-captured-values-' +
+                                     ('parallel' if sc['parallel']
+                                      else 'in-process'))
+            if len(per_file) > 1000:
+                chk.dist('files-with->1000-distinct-values')
+            if len(per_file) > 2500:
+                chk.dist('files-with->2500-distinct-values')
+        for x in bad[:2]:
+            chk.violation(
+                f"c05-readback {'parallel' if sc['parallel'] else 'single'}"
+                f" {x.split('] ')[-1].split(' ')[0][:30]}",
+                {'violated': bad[:6], 'definitions':
+                 [(sp['kind'], sp['pattern'], sp['tag'],
+                   [(f, getattr(t, '__name__', None))
+                    for f, t in (sp['fields'] or [])])
+                  for sp in sc['specs']],
+                 'files': {os.path.basename(p): sc['contents'][p][:40]
+                           for p in sc['paths']}})
+        if max(len(sc['res'].find_by_path(p)) for p in sc['paths']) \
+                <= 400 or (not sc['parallel'] and nlines >= 2600):
+            mc = model_case(sc, Classes())
+            if mc is not None:
+                coq_cases.append(mc[0])
+                wants.append(mc[1])
+                chk.dist('scenarios-model-checked')
+        if n < 2:
+            chk.sample({'files': nfiles, 'kinds': kinds,
+                        'lines': nlines, 'results': n_results,
+                        'accessor_checks': n_checks})
     try:
-        for n, (nfiles, kinds, nlines, distinct, seq) in enumerate(plans):
+        for n, pl in enumerate(plans):
             try:
-                sc = scenario(chk, d, f"s{n}", nfiles, kinds, nlines,
-                              distinct, seq)
+                one(n, pl)
             except Exception as exc:  # pylint: disable=broad-except
+                # never let an unexpected shape of the implementation's
+                # output escape: it is an observation, not a crash
+                import traceback
                 chk.violation(
-                    f"c05-run-raised {type(exc).__name__}",
-                    {'exception': repr(exc)[:400], 'files': nfiles,
-                     'definitions': kinds, 'lines_per_file': nlines,
-                     'sequence': seq})
-                continue
-            bad, n_checks, n_results = judge_scenario(chk, sc)
-            chk.coverage['evaluations'] += n_results
-            chk.coverage['traces_validated_against_impl'] += n_checks
-            chk.dist('scenarios-parallel' if sc['parallel']
-                     else 'scenarios-in-process')
-            for k in kinds:
-                chk.dist(f"def-{k}")
-            if seq:
-                chk.dist('def-sequence')
-            ids = set()
-            for p in sc['paths']:
-                per_file = set()
-                for r in sc['res'].find_by_path(p):
-                    if any(part[1] is not None for part in r.data):
-                        chk.coverage['distinct_nontrivial'] += 1
-                    for part in r.data:
-                        if part[1] is not None:
-                            per_file.add(part[1])
-                            # ==-equal but differently typed read-backs
-                            v = safe(lambda r=r, part=part: r.get(part[0]))
-                            cap = oracle_capture(
-                                sc['by_tag'][r.tag],
-                                sc['contents'][p][r.linenumber - 1]
-                                if r.linenumber <= len(sc['contents'][p])
-                                else '')
-                            if cap and part[0] in cap['by_idx'] and \
-                                    not isinstance(v, Raised) and \
-                                    type(v) is not type(
-                                        cap['by_idx'][part[0]]):
-                                type_differs += 1
-                if len(per_file) > 1000:
-                    chk.dist('files-with->1000-distinct-values')
-                if len(per_file) > 2500:
-                    chk.dist('files-with->2500-distinct-values')
-                ids |= per_file
-            for x in bad[:2]:
-                chk.violation(
-                    f"c05-readback {'parallel' if sc['parallel'] else 'single'}"
-                    f" {x.split('] ')[-1].split(' ')[0][:30]}",
-                    {'violated': bad[:6], 'definitions':
-                     [(s['kind'], s['pattern'], s['tag'],
-                       [(f, getattr(t, '__name__', None))
-                        for f, t in (s['fields'] or [])])
-                      for s in sc['specs']],
-                     'files': {os.path.basename(p): sc['contents'][p][:40]
-                               for p in sc['paths']}})
-            if max(len(sc['res'].find_by_path(p)) for p in sc['paths']) \
-                    <= 400 or (not sc['parallel'] and nlines >= 2600):
-                mc = model_case(sc, Classes())
-                if mc is not None:
-                    coq_cases.append(mc[0])
-                    wants.append(mc[1])
-                    chk.dist('scenarios-model-checked')
-            if n < 2:
-                chk.sample({'files': nfiles, 'kinds': kinds,
-                            'lines': nlines, 'results': n_results,
-                            'accessor_checks': n_checks})
+                    f"c05-output-unreadable {type(exc).__name__}",
+                    {'exception': repr(exc)[:300],
+                     'where': traceback.format_exc()[-600:], 'plan': pl})
     finally:
         shutil.rmtree(d, ignore_errors=True)
+    type_differs = type_differs[0]
     chk.dist('read-backs-equal-but-differently-typed', type_differs)
     mism, errs = vlib.eval_cases(chk.work, 'rb', '', PREAMBLE, 'run_case',
                                  coq_cases, wants, shard=4, timeout=1200)
